@@ -128,6 +128,8 @@ pub open spec fn appended(f: &Frame, id: Scru128Id) -> Frame {
 pub open spec fn ctx_log_prefix(st: &St, f: &Frame, id: Scru128Id) -> Seq<Ev> {
     if is_ctx_topic(f) { st.log.push(Ev::CtxInsert(id_u128(id))) } else { st.log }
 }
+pub open spec fn registers(f: &Frame) -> bool { is_ctx_topic(f) && id_u128(f.context_id) == 0 }
+pub open spec fn reg_events(f: &Frame) -> Seq<Ev> { if registers(f) { seq![Ev::CtxInsert(id_u128(f.id))] } else { Seq::<Ev>::empty() } }
 pub open spec fn gc_events(f: &Frame) -> Seq<Ev> {
     match f.ttl {
         Some(TTL::Head(n)) => seq![Ev::Gc(GCTask::CheckHeadTTL { context_id: f.context_id, topic: f.topic, keep: n })],
@@ -284,9 +286,12 @@ impl Store {
 //@@ spec
     requires store_wf(self), topic_bytes(frame).len() <= MAX_TOPIC(),
     ensures
-        final(st).contexts == old(st).contexts, final(st).last_id == old(st).last_id,
+        final(st).last_id == old(st).last_id,
+        // a stored registration frame (xs.context in the zero context) registers its context, however it got here (C07, C20);
+        // nothing else touches the registry, and a failed insert does not either
+        final(st).contexts == (if r is Ok && registers(frame) { old(st).contexts.insert(id_u128(frame.id)) } else { old(st).contexts }), //# store.insert_frame.registers_stored_context
         // Ok only after ONE atomic batch holding exactly the three entries, then a SyncAll persist (C04)
-        r is Ok ==> final(st).log == old(st).log.push(Ev::Commit(final(st).parts)).push(Ev::Persist(fjall::PersistMode::SyncAll)), //# store.insert_frame.one_batch_then_sync
+        r is Ok ==> final(st).log == old(st).log.push(Ev::Commit(final(st).parts)).push(Ev::Persist(fjall::PersistMode::SyncAll)) + reg_events(frame), //# store.insert_frame.one_batch_then_sync
         r is Ok ==> final(st).parts == apply_ops(old(st).parts, insert_ops(frame)), //# store.insert_frame.three_entries
         r is Ok ==> nul_free(topic_bytes(frame)), //# store.insert_frame.nul_rejected
         // a NUL topic is rejected without any trace (C05)
@@ -391,7 +396,7 @@ impl Store {
         // for exactly this context, topic and N (C03, C04, C08)
         r is Ok && stored_ttl(&frame) != Some(TTL::Ephemeral) ==> final(st).parts == apply_ops(old(st).parts, insert_ops(&r.unwrap())), //# store.append.stored
         r is Ok && stored_ttl(&frame) != Some(TTL::Ephemeral) ==> ({
-            let stored = ctx_log_prefix(old(st), &frame, r.unwrap().id).push(Ev::Commit(final(st).parts)).push(Ev::Persist(fjall::PersistMode::SyncAll));
+            let stored = ctx_log_prefix(old(st), &frame, r.unwrap().id).push(Ev::Commit(final(st).parts)).push(Ev::Persist(fjall::PersistMode::SyncAll)) + reg_events(&r.unwrap());
             // the head:N collector task may be queued before or after the broadcast; both come after the frame is durable
             ||| final(st).log == (stored + gc_events(&r.unwrap())).push(Ev::Broadcast(r.unwrap()))
             ||| final(st).log == stored.push(Ev::Broadcast(r.unwrap())) + gc_events(&r.unwrap())
